@@ -73,6 +73,17 @@ def injections(draw):
         first, second = draw(st.sampled_from([("a-b", "a_b"), ("a b", "a-b"), ("class", "class_"), ("1x", "_1x")]))
         schema = {"type": "object", "title": "Outer", "properties": {first: schema, second: {"type": "string"}}}
         path = ["properties", first] + path
+    if not use_definitions and draw(st.integers(0, 7)) == 0:
+        # carriers that a parser might treat as shorthand for something simpler (a dependency schema that only lists
+        # required names, a one-member composition, an items schema that is `true`-like) - the unsupported keyword
+        # sits right next to the only other keyword
+        carrier = draw(st.sampled_from([{"required": ["billing"]}, {"required": ["a", "b"], "title": "needs both"},
+                                        {"type": "string"}, {"description": "only an annotation"}, {}]))
+        where = draw(st.sampled_from(["dependencies", "dependencies", "additionalProperties", "items", "propertyNames"]))
+        schema = {"dependencies": {"card": carrier}} if where == "dependencies" else {where: carrier}
+        if draw(st.booleans()):
+            schema = {"type": "object", "title": "Order", **schema} if where != "items" else {"type": "array", **schema}
+        path = [where, "card"] if where == "dependencies" else [where]
     kw = draw(st.sampled_from(UNSUPPORTED))
     if kw == "$defs":
         value = {"x": draw(st.sampled_from([{}, {"type": "string"}, True]))}
